@@ -175,6 +175,11 @@ def check(model, gm, o, combos, seed, fixed_feeds=None):
             if interesting(b):
                 info["interesting_compared"] += 1
         elif v.startswith("violation"):
+            if not _source_outputs_conform(model, src, feeds, b):
+                # the binding drives an output outside its DECLARED type (a run-time shape operand of another length changes the
+                # output's rank): outside the model's contract, a transformation may rely on the declaration
+                info["binding_contradicts_declared_output"] = info.get("binding_contradicts_declared_output", 0) + 1
+                continue
             single = ":single-runtime" if ("ref: None" in d or "ort: None" in d) else ""
             cls = "zero" if 0 in b.values() else "one" if 1 in b.values() else "equal" if len(set(b.values())) < len(b) else "generic"
             verdicts.append((f"{v}:{dk}:binding_has_{cls}{single}", f"binding {_b(b)}: {d}", b, feeds))
@@ -183,6 +188,28 @@ def check(model, gm, o, combos, seed, fixed_feeds=None):
         elif v == "inconclusive_split":
             info["split"] += 1
     return verdicts, info
+
+
+def _source_outputs_conform(model, src, feeds, binding):
+    """The outputs the ORIGINAL model yields under this binding have the rank, the static dims and (for named dims the binding fixes)
+    the sizes that the graph outputs declare."""
+    a, r, _ = src.run(feeds)
+    outs = a[1] if a[0] == "ok" else r[1] if r[0] == "ok" else None
+    if outs is None:
+        return True
+    for vi, val in zip(model.graph.output, outs):
+        tt = vi.type.tensor_type
+        if isinstance(val, list) or not vi.type.HasField("tensor_type") or not tt.HasField("shape"):
+            continue
+        shp = np.asarray(val).shape
+        if len(tt.shape.dim) != len(shp):
+            return False
+        for d, n in zip(tt.shape.dim, shp):
+            if d.HasField("dim_value") and d.dim_value != n:
+                return False
+            if d.HasField("dim_param") and d.dim_param in binding and binding[d.dim_param] != n:
+                return False
+    return True
 
 
 def _b(b):
@@ -219,7 +246,7 @@ def run_shard(spec):
         if changed:
             for i in range(info["interesting_compared"]):
                 col.nontrivial.add(f"{mh}:{i}")
-        for k in ("compared", "widened", "source_rejects", "split", "interesting_compared", "bindings", "ort_timeout_abandoned"):
+        for k in ("compared", "widened", "source_rejects", "split", "interesting_compared", "bindings", "ort_timeout_abandoned", "binding_contradicts_declared_output"):
             col.extra[k] = col.extra.get(k, 0) + info.get(k, 0)
         for bucket, detail, b, vfeeds in verdicts:
             col.violation(bucket, detail, {"model": optcommon.model_to_json(gm.model), "opts": o, "binding": [[list(k) if isinstance(k, tuple) else k, v] for k, v in b.items()],
